@@ -296,7 +296,14 @@ def sumset(a, b):
 
 
 def rep_set(L, lo, hi):
-    hi_eff = min(hi, lo + 2, 3) if hi >= lo else lo
+    if hi < lo:
+        # reversed bounds are accepted by the parser; the VM's repeat instructions then run the body exactly
+        # `hi` times (the counter reaches hi before it reaches lo) -- the automata engine rejects such a pattern
+        cur = frozenset((0,))
+        for _ in range(hi):
+            cur = sumset(cur, L)
+        return cur
+    hi_eff = min(hi, lo + 2, 3)
     out = set()
     cur = frozenset((0,))
     for n in range(0, hi_eff + 1):
@@ -447,8 +454,6 @@ def analyzer_rule(run, ctx):
             ogrid = list(itertools.product(*[(False, True) for _ in os_])) or [()]
             for pv in pgrid:
                 params = {p[1]: v for p, v in zip(ps, pv)}
-                if "lo" in params and "hi" in params and params["lo"] > params["hi"]:
-                    continue
                 for Ls in itertools.product(LSETS, repeat=nchild):
                     variants_L = [Ls]
                     try:
@@ -531,6 +536,30 @@ def analyzer_rule(run, ctx):
                 if bad is not None:
                     run.violation(fam, label, "Repeat/zero-with-groups", H.where(arm),
                                   "Expr::Repeat with hi == 0 whose child contains capture groups is not marked hard (hard=%s): the inner engine drops `(a){0}` together with its group, so captures_len / capture_names / Captures::len of a delegated pattern disagree with the pattern's groups and with the VM" % show(Hd))
+            # a group that some backreference / group condition refers to must be interpreted by the VM whatever
+            # its child looks like: inside a delegate the engine could not backtrack into it (`(x|xy)\\1`) nor
+            # tell the VM which of several alternatives set it (`(?:(a)|(.))\\2`)
+            if variant == "Group":
+                refd = [o for o in os_ if "backrefs.contains" in str(o[1])]
+                if not refd:
+                    run.violation(fam, label, "Group/referenced-not-consulted", H.where(arm),
+                                  "Expr::Group: hardness does not depend on whether the group is referenced (hard=%s)" % show(Hd))
+                else:
+                    bad = None
+                    for kk in (False, True):
+                        for mm_ in (0, 1):
+                            val = {s_: (False if s_[0] in "hk" else 0) for s_ in sy}
+                            val.update({("m", 0): mm_, ("k", 0): kk, ("h", 0): False})
+                            for o in os_:
+                                val[o] = o in refd
+                            try:
+                                if not bool(ev(Hd, val)):
+                                    bad = val
+                            except Exception:
+                                bad = val
+                    if bad is not None:
+                        run.violation(fam, label, "Group/referenced-not-hard", H.where(arm),
+                                      "Expr::Group: a group that is referenced by a backreference or group condition is not always marked hard (hard=%s): it could be swallowed into an automata delegate, which cannot be backtracked into and does not tell the VM which alternative set the group" % show(Hd))
             # unconditional hardness for what to_str cannot print
             if variant in MUST_BE_HARD:
                 try:
